@@ -6,6 +6,12 @@ marker = '\n--------------------------------------------------------------------
 i = s.find(marker)
 if i >= 0:
     s = s[:i]
-s = s.rstrip('\n') + '\n' + open('/verif/notes/design-part2.md').read()
+part = open('/verif/notes/design-part2.md').read()
+# tables kept in files of their own (generated from seeded/*/meta.json)
+import re, os
+for m in set(re.findall(r'@@INCLUDE ([\w./-]+)@@', part)):
+    part = part.replace('\n\n@@INCLUDE %s@@' % m, '\n@@INCLUDE %s@@' % m)  # a table continues without a blank line
+    part = part.replace('@@INCLUDE %s@@' % m, open(os.path.join('/verif/notes', m)).read().rstrip('\n'))
+s = s.rstrip('\n') + '\n' + part
 open(p, 'w').write(s)
 print("DESIGN.md rebuilt,", s.count('\n'), "lines")
